@@ -369,6 +369,23 @@ pub fn run_docs(case: &Value, seed: u64) -> Outcome {
         } else {
             let expected = model_ll_content(&chars, &case["x"]);
             check_reading(&mut o, &text, &expected, &feats);
+            // LARGER documents built from this one, with the reading that follows by construction: the document five
+            // times in a row (many paragraphs), and - for a one-paragraph document without blank lines - its lines eight
+            // times in a row (many fields in one paragraph)
+            if m == 0 && conc::hash64(&text) % 8 == 0 && !expected.is_empty() {
+                let mut unit = text.clone(); if !unit.ends_with('\n') { unit.push('\n'); }
+                let mut f2 = feats.clone(); f2.push("repeated_document".into());
+                let big = vec![unit.as_str(); 5].join("\n");
+                let exp5: Vec<Vec<(String, String)>> = (0..5).flat_map(|_| expected.iter().cloned()).collect();
+                observe_text(&mut o, case, &big, &f2, false);
+                check_reading(&mut o, &big, &exp5, &f2);
+                if expected.len() == 1 && !unit.contains("\n\n") && !unit.starts_with('\n') && !unit.starts_with('#') {
+                    let big = unit.repeat(8);
+                    let exp8: Vec<Vec<(String, String)>> = vec![(0..8).flat_map(|_| expected[0].iter().cloned()).collect()];
+                    observe_text(&mut o, case, &big, &f2, false);
+                    check_reading(&mut o, &big, &exp8, &f2);
+                }
+            }
             // WIDE variant: indentation and the blanks after a colon are not part of the reading, so widening them to
             // 255 / 256 / 257 characters must not change it (nor fidelity)
             if m == 0 {
